@@ -64,6 +64,9 @@ func c04PanicFunc(stack string) string {
 	return "unknown"
 }
 
+// c04SharedOpts: one options value per (vCPU count, product), reused by every case of the run.
+var c04SharedOpts = map[[2]int]*sev.LaunchOptions{}
+
 var c04LateClasses = map[string]bool{"no-metadata": true, "dup-kind": true, "section-length": true, "no-unmeasured": true,
 	"no-secret": true, "no-cpuid": true, "overlap": true, "unknown-kind": true, "align-addr": true, "align-len": true, "range": true}
 
@@ -72,13 +75,29 @@ func c04LD(c *Ctx, stream string, fw []byte, vcpus int, product int, known *c04K
 	desc := c04Encode(fw)
 	op := fmt.Sprintf("%s op=ld vcpus=%d product=%d fw=%s", stream, vcpus, product, desc)
 	before := sha256.Sum256(fw)
-	opts := &sev.LaunchOptions{Vcpus: vcpus, Product: sgpb.SevProduct_SevProductName(product)}
+	// d1: through an options value that earlier cases (other images, same vCPU count and product) have already
+	// used, as sev.UnsignedSnp reuses one across counts; d2: through a fresh one.  The digest is a function of the
+	// image and the options' fields, not of what the options value was used for before.
+	key := [2]int{vcpus, product}
+	opts := c04SharedOpts[key]
+	reused := opts != nil
+	if opts == nil {
+		opts = &sev.LaunchOptions{Vcpus: vcpus, Product: sgpb.SevProduct_SevProductName(product)}
+		c04SharedOpts[key] = opts
+	}
 	var d1, d2 []byte
 	var e1, e2 error
 	panicked, msg, stack := Guard(func() {
 		d1, e1 = sev.LaunchDigest(opts, fw)
-		d2, e2 = sev.LaunchDigest(opts, fw)
+		d2, e2 = sev.LaunchDigest(&sev.LaunchOptions{Vcpus: vcpus, Product: sgpb.SevProduct_SevProductName(product)}, fw)
 	})
+	if reused {
+		c.Count("options-value-reused")
+	}
+	if opts.Vcpus != vcpus || opts.Product != sgpb.SevProduct_SevProductName(product) {
+		c.Find("c04/sev.LaunchDigest/options-modified", "LaunchDigest changed the caller's options fields", op)
+		delete(c04SharedOpts, key)
+	}
 	replay := op
 	if len(replay) > 3000 {
 		replay = fmt.Sprintf("%s op=ld vcpus=%d product=%d fw=<%d bytes, sha256 %x> generator=%s seed=%d", stream, vcpus, product, len(fw), before[:8], tag, c.Seed)
@@ -123,7 +142,7 @@ func c04LD(c *Ctx, stream string, fw []byte, vcpus int, product int, known *c04K
 	}
 	if !panicked {
 		if (e1 == nil) != (e2 == nil) || !bytes.Equal(d1, d2) {
-			c.Find("c04/sev.LaunchDigest/nondeterministic", "two calls on the same image and options differ", replay)
+			c.Find("c04/sev.LaunchDigest/nondeterministic", "two calls on the same image with equal options differ (first: an options value used before for other images; second: a fresh one)", replay)
 		}
 		if after := sha256.Sum256(fw); after != before {
 			c.Find("c04/sev.LaunchDigest/image-modified", "the image bytes changed during the call", replay)
@@ -275,7 +294,8 @@ func c04ValidSecs(r *Rng) []c04Sec {
 }
 
 var c04Mutations = []string{"misalign-addr", "misalign-len", "zero-len", "overlap-next", "overlap-same", "dup-cpuid", "dup-secret",
-	"drop-unmeasured", "drop-secret", "drop-cpuid", "unknown-kind", "near-4g", "wrap-4g", "wrap-4g-b", "cross-4g", "empty-list", "huge-len", "dup-unmeasured-kind"}
+	"drop-unmeasured", "drop-secret", "drop-cpuid", "unknown-kind", "near-4g", "wrap-4g", "wrap-4g-b", "cross-4g", "empty-list", "huge-len", "dup-unmeasured-kind",
+	"dup-cpuid-at-zero", "dup-secret-at-zero", "cpuid-at-zero", "secret-at-zero"}
 
 func c04Mutate(r *Rng, secs []c04Sec, m string) []c04Sec {
 	out := append([]c04Sec(nil), secs...)
@@ -302,6 +322,20 @@ func c04Mutate(r *Rng, secs []c04Sec, m string) []c04Sec {
 	case "overlap-same":
 		j := (i + 1) % len(out)
 		out[i].Addr = out[j].Addr
+	case "dup-cpuid-at-zero", "dup-secret-at-zero", "cpuid-at-zero", "secret-at-zero":
+		// the first page of the kind at guest-physical address 0 (legal on its own), then possibly a second one
+		kind := uint32(3)
+		if strings.Contains(m, "secret") {
+			kind = 2
+		}
+		for j := range out {
+			if out[j].Kind == kind {
+				out[j].Addr, out[j].Len = 0, 0x1000
+			}
+		}
+		if strings.HasPrefix(m, "dup-") {
+			out = append(out, c04Sec{0x40000000, 0x1000, kind})
+		}
 	case "dup-cpuid":
 		out = append(out, c04Sec{0x40000000, 0x1000, 3})
 	case "dup-secret":
